@@ -135,26 +135,22 @@ class Ldmcsu(Gate):
 
     @staticmethod
     def _compute_gate_a(x_value, z_value):
-        if x_value == 0:
+        # r = sqrt(1 + Re(z)), computed without cancellation or underflow when z is
+        # close to -1 (x^2 + |z|^2 = 1 gives 1 + Re(z) = (x^2 + Im(z)^2) / (1 - Re(z))).
+        if z_value.real < 0:
+            root = np.hypot(x_value, z_value.imag) / np.sqrt(1.0 - z_value.real)
+        else:
+            root = np.sqrt(z_value.real + 1.0)
+
+        if x_value == 0 or root == 0:
             alpha = (z_value + 0j) ** (1 / 4)
             beta = 0.0
         else:
-            # 1 + Re(z), computed without cancellation when z is close to -1
-            # (x^2 + |z|^2 = 1 gives 1 + Re(z) = (x^2 + Im(z)^2) / (1 - Re(z))).
-            if z_value.real < 0:
-                one_plus_re = (x_value ** 2 + z_value.imag ** 2) / (1.0 - z_value.real)
-            else:
-                one_plus_re = z_value.real + 1.0
-            alpha_r = np.sqrt((np.sqrt(one_plus_re / 2.0) + 1.0) / 2.0)
-            alpha_i = z_value.imag / (
-                    2.0 * np.sqrt(one_plus_re *
-                                  (np.sqrt(one_plus_re / 2.0) + 1.0))
-            )
+            half = root / np.sqrt(2.0) + 1.0
+            alpha_r = np.sqrt(half / 2.0)
+            alpha_i = z_value.imag / (2.0 * root * np.sqrt(half))
             alpha = alpha_r + 1.0j * alpha_i
-            beta = x_value / (
-                    2.0 * np.sqrt(one_plus_re *
-                                  (np.sqrt(one_plus_re / 2.0) + 1.0))
-            )
+            beta = x_value / (2.0 * root * np.sqrt(half))
         s_op = np.array([[alpha, -np.conj(beta)], [beta, np.conj(alpha)]])
         return s_op
 
